@@ -527,6 +527,66 @@ ByteCands(kind, full) ==     \* quick: the first character of the first atom and
       pos == IF full THEN all ELSE {CHOOSE i \in all : \A j \in all : i <= j, Len(a)} IN
   UNION {{SubSeq(a, 1, i - 1) \o ByteStr(n) \o SubSeq(a, i + 1, Len(a)) : n \in ByteRange} : i \in pos}
 
+(* ---- closed-list (keyword) arguments: candidates built from the legal values themselves ----
+   boolean-arg, status-arg, ordered-by-arg, the deviate kinds (and "unbounded" of max-value-arg) are closed lists:
+   the argument is exactly one of the listed words.  Whatever a membership routine might also let through is built
+   from the legal values: two of them (also the same one twice) joined by every ASCII character that is not a letter
+   or digit (the renderer quotes every argument, so lexer terminators travel too), by tab / line break and by
+   nothing; every arrangement of three or more distinct values joined likewise; the same with the joiner also in front
+   and behind; a piece of one value, a joiner, a piece of the next; every proper prefix and suffix; one character
+   dropped or doubled at every position; one character added in front or behind; every case variant that changes one
+   character, a leading run, or all.  Verdicts are ArgVerdict's, as for every other candidate.                      *)
+KwKinds == EnumKinds \cup {"maxel"}
+KwValues(kind) == IF kind = "maxel" THEN {"unbounded", "1"} ELSE EnumValues(kind)
+AlnumBytes == (48..57) \cup (65..90) \cup (97..122)
+Joiners == {ByteStr(n) : n \in (32..126) \ AlnumBytes} \cup {"~t", "~n", ""}
+ChainJoiners(full) == IF full THEN Joiners ELSE {"|", ",", " ", "/", ":", ";", ""}
+AddChars == (Joiners \ {""}) \cup {"s", "X", "0"}
+Arrangements(V, k) == {q \in [1..k -> V] : \A i, j \in 1..k : i # j => q[i] # q[j]}
+RECURSIVE JoinWith(_, _)
+JoinWith(sq, j) == IF Len(sq) = 1 THEN sq[1] ELSE sq[1] \o j \o JoinWith(Tail(sq), j)
+LowerStr == "abcdefghijklmnopqrstuvwxyz"
+UpperStr == "ABCDEFGHIJKLMNOPQRSTUVWXYZ"
+UpChar(c) == IF \E i \in 1..26 : SubSeq(LowerStr, i, i) = c
+             THEN LET i == CHOOSE j \in 1..26 : SubSeq(LowerStr, j, j) = c IN SubSeq(UpperStr, i, i) ELSE c
+RECURSIVE UpAll(_)
+UpAll(v) == IF v = "" THEN "" ELSE UpChar(SubSeq(v, 1, 1)) \o UpAll(SubSeq(v, 2, Len(v)))
+KwEdits(v) ==
+  LET n == Len(v) IN
+  {SubSeq(v, 1, i - 1) \o SubSeq(v, i + 1, n) : i \in 1..n}                                    \* one character dropped
+  \cup {SubSeq(v, 1, i) \o SubSeq(v, i, n) : i \in 1..n}                                       \* one character doubled
+  \cup {SubSeq(v, 1, i) : i \in 0..(n - 1)} \cup {SubSeq(v, i, n) : i \in 2..n}                \* proper prefixes (and ""), suffixes
+  \cup {c \o v : c \in AddChars} \cup {v \o c : c \in AddChars}                                \* one character added
+  \cup {UpAll(SubSeq(v, 1, i)) \o SubSeq(v, i + 1, n) : i \in 1..n}                            \* leading run / all in upper case
+  \cup {SubSeq(v, 1, i - 1) \o UpChar(SubSeq(v, i, i)) \o SubSeq(v, i + 1, n) : i \in 1..n}    \* one character in upper case
+KwCands(kind, full) ==
+  LET V == KwValues(kind)
+      m == Cardinality(V)
+      CJ == ChainJoiners(full)
+      arr == UNION {Arrangements(V, k) : k \in 1..m}
+      cut(v) == IF Len(v) > 2 THEN {1, Len(v) - 1} ELSE {1} IN
+  V
+  \cup {a \o j \o b : a \in V, b \in V, j \in Joiners}
+  \cup {JoinWith(q, j) : q \in {x \in arr : Len(x) >= 3}, j \in CJ}
+  \cup {j \o JoinWith(q, j) \o j : q \in arr, j \in CJ}
+  \cup UNION {UNION {{SubSeq(a, Len(a) - x + 1, Len(a)) \o j \o SubSeq(b, 1, y) : x \in cut(a), y \in cut(b), j \in CJ} : b \in V} : a \in V}
+  \cup UNION {KwEdits(v) : v \in V}
+
+\* ... and the same statement under EVERY parent whose table allows it (the argument routine may be reached on
+\* different paths; what the compiler re-checks differs from parent to parent): the legal values, every pair and
+\* every longer arrangement of them with a joiner
+KwStmts(kind) == {s[1] : s \in SitesOf(kind)}
+KwParents(kw) == {P \in ParentIds : kw \in DOMAIN Sub(P)}
+KwCore(kind, full) ==
+  LET V == KwValues(kind) IN
+  V \cup {x \o j \o y : x \in V, y \in V, j \in ChainJoiners(full)}
+    \cup {JoinWith(q, j) : q \in UNION {Arrangements(V, k) : k \in 3..Cardinality(V)}, j \in ChainJoiners(FALSE)}
+ArgUnder(P, kw, a) ==      \* the minimal statement of parent P with one kw statement, whose argument is a
+  LET X == PStmt(P, kw, 1)
+      j == CHOOSE i \in 1..Len(X.subs) : X.subs[i].kw = kw /\ \A k \in 1..(i - 1) : X.subs[k].kw # kw IN
+  St(X.kw, X.arg, [i \in 1..Len(X.subs) |-> IF i = j THEN St(kw, a, X.subs[i].subs) ELSE X.subs[i]])
+ArgUnderTree(P, kw, a) == Complete(Embed(ArgUnder(P, kw, a)))
+
 (* ---- extension keywords drawn from the parser's own keyword tables ----
    A prefixed keyword is an extension statement whatever its local name is: <prefix>:<name> for every RFC statement
    name and every local name of the extensions the parser has built in (configd: / opd:) must be accepted wherever an
